@@ -8,9 +8,9 @@
 #include "v.h"
 
 enum { DGF_NONE = 0, DGF_BTYPE3, DGF_LENNLEN, DGF_HLIT, DGF_HDIST, DGF_CL_OVERSUB, DGF_LL_OVERSUB, DGF_DIST_OVERSUB, DGF_REP_NOPREV, DGF_REP_OVERRUN, DGF_NO_EOB,
-       DGF_BAD_LENSYM, DGF_BAD_DISTSYM, DGF_UNASSIGNED, DGF_FARDIST, DGF_NODIST_MATCH, DGF_NFAULTS };
+       DGF_BAD_LENSYM, DGF_BAD_DISTSYM, DGF_UNASSIGNED, DGF_FARDIST, DGF_NODIST_MATCH, DGF_UNASSIGNED_DIST, DGF_NFAULTS };
 static const char *dgf_name[] = { "none", "btype3", "len-nlen", "hlit>29", "hdist>29", "codelen-code-oversubscribed", "litlen-oversubscribed", "dist-oversubscribed", "repeat-no-previous", "repeat-overrun", "no-eob-code",
-				  "litlen-286/287", "dist-30/31", "unassigned-code", "distance-too-far", "length-symbol-without-distance-codes" };
+				  "litlen-286/287", "dist-30/31", "unassigned-code", "distance-too-far", "length-symbol-without-distance-codes", "unassigned-distance-code" };
 typedef struct {
 	/* knobs */
 	size_t max_out;       /* cap on expected output */
@@ -110,7 +110,8 @@ static void dg_dynamic(defgen_t *g, vrng *r, int last, int fault)
 	for (int i = 0; i < nlit; i++) { int s = vrn(r, 256); if (!mark[s]) { mark[s] = 1; used[nu++] = s; } }
 	int nlen = vrn(r, 30); for (int i = 0; i < nlen; i++) { int s = 257 + vrn(r, 29); if (!mark[s]) { mark[s] = 1; used[nu++] = s; } }
 	if (fault == DGF_LL_OVERSUB || fault == DGF_UNASSIGNED || fault == DGF_FARDIST) while (nu < 6) { int s = vrn(r, 200); if (!mark[s]) { mark[s] = 1; used[nu++] = s; } }
-	if (fault == DGF_FARDIST && !mark[257]) { mark[257] = 1; used[nu++] = 257; nlen = 1; }
+	if (fault == DGF_UNASSIGNED_DIST) while (nu < 6) { int s = vrn(r, 200); if (!mark[s]) { mark[s] = 1; used[nu++] = s; } }
+	if ((fault == DGF_FARDIST || fault == DGF_UNASSIGNED_DIST) && !mark[257]) { mark[257] = 1; used[nu++] = 257; nlen = 1; }
 	if (fault == DGF_NODIST_MATCH) { while (nu < 4) { int s = vrn(r, 200); if (!mark[s]) { mark[s] = 1; used[nu++] = s; } } if (!mark[260]) { mark[260] = 1; used[nu++] = 260; } }
 	int haslen = 0; for (int i = 0; i < nu; i++) if (used[i] > 256) haslen = 1;
 	int shape = vrn(r, 3), maxd = (g->want_deep || vrn(r, 3) == 0) ? 15 : 7 + (int) vrn(r, 9); while ((1 << maxd) < nu) maxd++;
@@ -121,12 +122,13 @@ static void dg_dynamic(defgen_t *g, vrng *r, int last, int fault)
 	int ndu = 0, dused[30]; int nd = !haslen ? (int) vrn(r, 2) : 1 + (int) vrn(r, 30); if (vrn(r, 10) == 0) nd = haslen ? 1 : 0;
 	if (fault == DGF_DIST_OVERSUB && nd < 3) nd = 5;
 	if (fault == DGF_FARDIST) nd = 30;
+	if (fault == DGF_UNASSIGNED_DIST) nd = 30;   /* many distance codes, deep: codes longer than a decoder's first-level lookup */
 	if (fault == DGF_NODIST_MATCH) nd = 0;
 	char dm[30] = { 0 }; for (int i = 0; i < nd; i++) { int s = fault == DGF_FARDIST ? i : (g->want_far && i < 4 ? 29 - i : (int) vrn(r, 30)); if (!dm[s]) { dm[s] = 1; dused[ndu++] = s; } }
 	if (ndu == 1) g->single_dist++;
 	if (ndu == 0) g->no_dist++;
 	if (ndu == 1) dl[dused[0]] = 1;
-	else if (ndu > 1) { uint8_t td[30]; int md = 5 + (int) vrn(r, 11); while ((1 << md) < ndu) md++; dg_lengths(r, td, ndu, md, vrn(r, 3)); for (int i = 0; i < ndu; i++) dl[dused[i]] = td[i]; }
+	else if (ndu > 1) { uint8_t td[30]; int md = 5 + (int) vrn(r, 11); while ((1 << md) < ndu) md++; if (fault == DGF_UNASSIGNED_DIST) md = 12 + (int) vrn(r, 4); dg_lengths(r, td, ndu, md, fault == DGF_UNASSIGNED_DIST ? 1 : vrn(r, 3)); for (int i = 0; i < ndu; i++) dl[dused[i]] = td[i]; }
 	/* --- faults on the code sets (the token codes below are still computed from the unbroken sets where possible) */
 	uint8_t ll_hdr[288], dl_hdr[32]; memcpy(ll_hdr, ll, 288); memcpy(dl_hdr, dl, 32);
 	int unassigned_sym = -1;
@@ -137,6 +139,9 @@ static void dg_dynamic(defgen_t *g, vrng *r, int last, int fault)
 		for (int i = 0; i < nu; i++) if (used[i] < 256) { unassigned_sym = used[i]; break; }
 		if (unassigned_sym >= 0) { /* canonical codes shift when a length disappears: compute codes from the header set, and emit the dropped symbol's OLD slot = the last code of its length in the new set + 1 */
 			ll_hdr[unassigned_sym] = 0; } else fault = 0; }
+	if (fault == DGF_UNASSIGNED_DIST) { /* drop one of the longest distance codes from the header: the distance set becomes incomplete, the last code of that length unassigned */
+		int longest = -1; for (int i = 0; i < 30; i++) if (dl_hdr[i] && (longest < 0 || dl_hdr[i] > dl_hdr[longest] || (dl_hdr[i] == dl_hdr[longest] && vrn(r, 2)))) longest = i;
+		if (ndu > 2 && longest >= 0) dl_hdr[longest] = 0; else fault = 0; }
 	dg_canon(ll_hdr, 288, lc); dg_canon(dl_hdr, 32, dc);
 	/* --- header */
 	int hlit = 286; while (hlit > 257 && ll_hdr[hlit - 1] == 0) hlit--; if (vrn(r, 3) == 0) hlit += vrn(r, 286 - hlit + 1);
@@ -173,7 +178,7 @@ static void dg_dynamic(defgen_t *g, vrng *r, int last, int fault)
 	if (fault == DGF_HLIT) { g->fault_bit = g->bits; dg_pb(g, 30 + vrn(r, 2), 5); g->fault_done = 1; } else dg_pb(g, hlit - 257, 5);
 	if (fault == DGF_HDIST) { g->fault_bit = g->bits; dg_pb(g, 30 + vrn(r, 2), 5); g->fault_done = 1; } else dg_pb(g, hdist - 1, 5);
 	dg_pb(g, hclen - 4, 4);
-	if (fault && fault != DGF_HLIT && fault != DGF_HDIST && fault != DGF_UNASSIGNED && fault != DGF_FARDIST && fault != DGF_NODIST_MATCH) { g->fault_bit = g->bits; g->fault_done = 1; }
+	if (fault && fault != DGF_HLIT && fault != DGF_HDIST && fault != DGF_UNASSIGNED && fault != DGF_FARDIST && fault != DGF_NODIST_MATCH && fault != DGF_UNASSIGNED_DIST) { g->fault_bit = g->bits; g->fault_done = 1; }
 	for (int i = 0; i < hclen; i++) dg_pb(g, cll[ord[i]], 3);
 	for (int i = 0; i < nc; i++) { dg_pcode(g, clc[cs[i]], cll[cs[i]]); if (cs[i] == 16) dg_pb(g, cx[i], 2); else if (cs[i] == 17) dg_pb(g, cx[i], 3); else if (cs[i] == 18) dg_pb(g, cx[i], 7); }
 	if (g->fault_done) { /* header already broken: what follows is only filler */ for (int i = 0; i < 80; i++) dg_pb(g, vr32(r), 8); return; }
@@ -186,6 +191,16 @@ static void dg_dynamic(defgen_t *g, vrng *r, int last, int fault)
 		int lastc = -1; for (int i = 0; i < 288; i++) if (ll_hdr[i] == L && (int) lc[i] > lastc) lastc = lc[i];
 		g->fault_bit = g->bits; g->fault_done = 1; g->valid_out_before_fault = g->explen;
 		dg_pcode(g, (uint32_t) (lastc + 1), L);
+		for (int i = 0; i < 80; i++) dg_pb(g, vr32(r), 8);
+		return;
+	}
+	if (fault == DGF_UNASSIGNED_DIST) {
+		dg_tokens(g, r, ll_hdr, lc, dl_hdr, dc, ntok / 4);
+		int L = 0; for (int i = 0; i < 30; i++) if (dl_hdr[i] > L) L = dl_hdr[i];
+		int lastc = -1; for (int i = 0; i < 30; i++) if (dl_hdr[i] == L && (int) dc[i] > lastc) lastc = dc[i];
+		g->fault_bit = g->bits; g->fault_done = 1; g->valid_out_before_fault = g->explen;
+		dg_pcode(g, lc[257], ll_hdr[257]);                                  /* length 3 ... */
+		{ uint32_t pat = (uint32_t) (lastc + 1); int pl = L; while (pl < 15 && vrn(r, 2)) { pat = pat << 1 | (vrn(r, 2)); pl++; } dg_pcode(g, pat, pl); }   /* ... then bits no distance code owns (possibly continued: still unowned, the set is prefix-free) */
 		for (int i = 0; i < 80; i++) dg_pb(g, vr32(r), 8);
 		return;
 	}
